@@ -5,10 +5,10 @@ CONSTANTS
   FeatStrands = {"+","-"}
   QStrands = {".","+","-"}
   NContigs = 2
-  MemoCap = 2
-  MaxFeat = 3
+  MemoCap = 3
+  MaxFeat = 2
   MaxSorts = 2
-  MaxQueries = 3
+  MaxQueries = 2
   BetweenOn = TRUE
   AnnotLevel = 0
   UnsortedQueries = TRUE
